@@ -597,7 +597,11 @@ func (c *Client) negotiateVersion(ctx context.Context) error {
 	if err := bi.Err(); err != nil {
 		return err
 	}
-	serverVersions := bi.ResponsePayload.(*payloads.DiscoverVersionsResponsePayload).ProtocolVersion
+	discoverResp, ok := bi.ResponsePayload.(*payloads.DiscoverVersionsResponsePayload)
+	if !ok {
+		return errors.New("Protocol version negotiation failed. Unexpected response payload")
+	}
+	serverVersions := discoverResp.ProtocolVersion
 	// Adopt the highest version we support that the server advertises too. Do not rely on
 	// the order of the server's list, nor on it being restricted to what we offered.
 	// c.supportedVersions is sorted from the highest to the lowest version.
@@ -677,6 +681,25 @@ func (c *Client) BatchOpt(ctx context.Context, payloads []kmip.OperationPayload,
 	if int(resp.Header.BatchCount) != len(resp.BatchItem) || len(resp.BatchItem) != len(payloads) {
 		return nil, errors.New("Batch count mismatch")
 	}
+	// Each successful item must answer the operation requested at the same position.
+	// Items that are not successful are surfaced, with the server's status, reason
+	// and message, by ResponseBatchItem.Err().
+	for i := range resp.BatchItem {
+		bi := &resp.BatchItem[i]
+		if bi.ResultStatus != kmip.ResultStatusSuccess {
+			continue
+		}
+		op := payloads[i].Operation()
+		if bi.Operation != 0 && bi.Operation != op {
+			return nil, fmt.Errorf("Unexpected operation %q in response batch item %d, expected %q", ttlv.EnumStr(bi.Operation), i, ttlv.EnumStr(op))
+		}
+		if bi.ResponsePayload == nil {
+			return nil, fmt.Errorf("Missing response payload in batch item %d", i)
+		}
+		if bi.ResponsePayload.Operation() != op {
+			return nil, fmt.Errorf("Unexpected response payload in batch item %d, expected a %q payload", i, ttlv.EnumStr(op))
+		}
+	}
 	return resp.BatchItem, nil
 }
 
@@ -726,7 +749,12 @@ func (ex Executor[Req, Resp]) ExecContext(ctx context.Context) (Resp, error) {
 		var zero Resp
 		return zero, err
 	}
-	return resp.(Resp), nil
+	typedResp, ok := resp.(Resp)
+	if !ok {
+		var zero Resp
+		return zero, fmt.Errorf("Unexpected response payload type %T", resp)
+	}
+	return typedResp, nil
 }
 
 // MustExec is like Exec except it panics if the request fails.
